@@ -13,6 +13,11 @@ def findall_stub(ev, args, kwargs, node):
     """A-re-1 + A-int-1: re.findall(r"(\\d*)-(\\d*)", s) returns pairs of (possibly empty) decimal numerals;
     int() of a non-empty one (<= 4300 digits, see requires) succeeds and is >= 0."""
     USED.update(("A-re-1", "A-int-1"))
+    from pyvc.builtins import const_str
+    pat = const_str(args[0]) if args else None
+    if pat != r"(\d*)-(\d*)":
+        # the assumed contract is about THIS pattern; any other one is outside it (undecided - the bounded layer decides)
+        ev.unsupported(node, "re.findall with the pattern %r: the assumed contract A-re-1 is about r'(\\d*)-(\\d*)'" % (pat,))
     return ev.st.ghost["specs"]
 
 
